@@ -602,6 +602,12 @@ fn cases(ctx: &Ctx, rng: &mut Rng) -> Vec<Case> {
             }
         }
     }
+    // every other silent-stall case comes with a STATUS_CHANGE DOWN event (decided by the parity of its seed)
+    let mut j = 0u64;
+    for c in v.iter_mut().filter(|c| c.fault == Fault::SilentStall) {
+        c.seed = (c.seed & !1) | (j & 1);
+        j += 1;
+    }
     v
 }
 
@@ -771,6 +777,142 @@ fn judge_survivor(o: &mut Outcome, seed: u64, r: &SurvOut) {
     }
 }
 
+// ---------------------------------------------------------------------------
+// Two nodes: what was in flight on the dead connection is re-sent elsewhere only as the policy allows
+// ---------------------------------------------------------------------------
+
+struct ReplayOut {
+    error: Option<String>,
+    how: &'static str,
+    /// (id, idempotent, node it was in flight on, frames seen per node [n0, n1], outcome)
+    ops: Vec<(u64, bool, usize, [usize; 2], Result<Option<EchoOutcome>, String>)>,
+    violations: Vec<String>,
+}
+
+async fn run_two_node_replay(seed: u64) -> ReplayOut {
+    let mut rng = Rng::new(seed, 47);
+    let how = *rng.pick(&["fin", "rst", "garbage"]);
+    let mut out = ReplayOut { error: None, how, ops: vec![], violations: vec![] };
+    let echo = Echo::new(EchoMode::Hold);
+    let spec = ClusterSpec {
+        nodes: vec![NodeSpec::simple("dc1", "r1", vec![-1000]), NodeSpec::simple("dc1", "r2", vec![1000])],
+        keyspaces: single_node_spec().keyspaces,
+        cluster_name: "c10-two".into(),
+    };
+    let cluster = MockCluster::start(spec, echo.clone()).await;
+    let profile = ExecutionProfile::builder().request_timeout(None).build();
+    let session = match connect(&cluster, |b| b.pool_size(PoolSize::PerHost(NonZeroUsize::new(1).unwrap())).default_execution_profile_handle(profile.into_handle())).await {
+        Ok(s) => Arc::new(s),
+        Err(e) => {
+            out.error = Some(e);
+            cluster.shutdown();
+            return out;
+        }
+    };
+    let pool_conns = |c: &MockCluster, i: usize| c.established(i).into_iter().filter(|x| !x.registered.load(std::sync::atomic::Ordering::SeqCst)).collect::<Vec<_>>();
+    {
+        let c = cluster.clone();
+        if !cluster.wait_until(Duration::from_secs(15), move || !pool_conns(&c, 0).is_empty() && !pool_conns(&c, 1).is_empty()).await {
+            out.error = Some("pools did not fill".into());
+            cluster.shutdown();
+            return out;
+        }
+    }
+    settle(cluster.log(), Duration::from_millis(100), Duration::from_secs(5), || false).await;
+    let n = rng.usize(4, 10);
+    let mut handles = Vec::new();
+    for _ in 0..n {
+        let id = next_op();
+        let idem = rng.bool();
+        let s = session.clone();
+        handles.push((id, idem, tokio::spawn(async move { tokio::time::timeout(Duration::from_secs(20), echo_op(s, None, id, idem)).await.ok() })));
+    }
+    {
+        let e2 = echo.clone();
+        settle(cluster.log(), Duration::from_millis(60), Duration::from_secs(10), move || e2.held_count() >= n).await;
+    }
+    // where is each request in flight?
+    let held = echo.take_held();
+    let at: HashMap<u64, usize> = held.iter().map(|(id, rq)| (*id, rq.node.idx)).collect();
+    let victim = rng.below(2) as usize;
+    echo.set_mode(EchoMode::Immediate);
+    for c in pool_conns(&cluster, victim) {
+        match how {
+            "fin" => c.close(CloseHow::Fin),
+            "rst" => c.close(CloseHow::Rst),
+            _ => {
+                c.send_raw(vec![0x84, 0xff, 0xff, 0xff, 0xff, 0xff, 0xff, 0xff, 0xff, 0xff, 0xff]);
+                tokio::time::sleep(Duration::from_millis(3)).await;
+                c.close(CloseHow::Fin);
+            }
+        }
+    }
+    // the other node answers what it holds
+    tokio::time::sleep(Duration::from_millis(20)).await;
+    for (id, rq) in held.iter().filter(|(_, rq)| rq.node.idx != victim) {
+        Echo::answer(*id, rq);
+    }
+    let mut outcomes = Vec::new();
+    for (id, idem, h) in handles {
+        outcomes.push((id, idem, h.await.map_err(|e| format!("{e}"))));
+    }
+    tokio::time::sleep(Duration::from_millis(30)).await;
+    let log = cluster.log().snapshot();
+    for (id, idem, oc) in outcomes {
+        let mut frames = [0usize; 2];
+        for l in &log {
+            if let crate::mock::log::Ev::Recv { node, request, .. } = &l.ev {
+                if let crate::wire::request::Request::Query { query, .. } = &**request {
+                    if query.strip_prefix(ECHO_QUERY_PREFIX).and_then(|x| x.trim().parse::<u64>().ok()) == Some(id) && *node < 2 {
+                        frames[*node] += 1;
+                    }
+                }
+            }
+        }
+        out.ops.push((id, idem, at.get(&id).copied().unwrap_or(9), frames, oc));
+    }
+    out.violations = cluster.log().violations();
+    drop(session);
+    cluster.shutdown();
+    out
+}
+
+fn judge_replay(o: &mut Outcome, seed: u64, r: &ReplayOut) {
+    if let Some(e) = &r.error {
+        o.inconclusive(format!("two-node case could not run: {e}"));
+        return;
+    }
+    let replay = json!({"two_node_seed": seed, "how": r.how, "ops": r.ops.iter().map(|(id, idem, at, fr, oc)| format!("{id} idempotent={idem} in flight on node {at}, frames per node {fr:?}: {oc:?}").chars().take(200).collect::<String>()).collect::<Vec<_>>()});
+    o.case(fw::hash64(format!("two:{seed}").as_bytes()), true);
+    o.class(&format!("two-nodes:connection-dies-with-requests-in-flight:{}", r.how));
+    for v in &r.violations {
+        o.node_violation("c10", v, replay.clone());
+    }
+    for (id, idem, at, frames, oc) in &r.ops {
+        match oc {
+            Err(p) => o.violation("c10:two-nodes:request-panicked", format!("request {id}: {p}"), replay.clone()),
+            Ok(None) => o.violation("c10:two-nodes:request-hangs", format!("request {id} did not return within 20 s"), replay.clone()),
+            Ok(Some(EchoOutcome::Ok(got))) if got != id => o.violation("c10:two-nodes:foreign-response", format!("request {id} was handed the response of request {got}"), replay.clone()),
+            Ok(Some(EchoOutcome::Garbled(g))) => o.violation("c10:two-nodes:garbled-response", format!("request {id}: {g}"), replay.clone()),
+            _ => {}
+        }
+        let total: usize = frames.iter().sum();
+        if !*idem && total > 1 {
+            // the default retry policy says DontRetry for a non-idempotent request whose connection broke
+            o.violation(
+                "c10:two-nodes:non-idempotent-request-re-sent-after-its-connection-died",
+                format!("non-idempotent request {id} was in flight on node {at} when that connection died ({}); it reached the nodes {frames:?} times in all - it was sent again although the retry policy does not allow it", r.how),
+                replay.clone(),
+            );
+        } else if !*idem && *at < 2 && frames[*at] == 1 && total == 1 {
+            o.class("two-nodes:non-idempotent-not-replayed");
+        }
+        if *idem && total > 1 {
+            o.class("two-nodes:idempotent-retried-elsewhere");
+        }
+    }
+}
+
 pub fn run(ctx: &Ctx) -> Outcome {
     let mut out = Outcome::new();
     let rt = runtime(ctx.workers.min(8));
@@ -862,6 +1004,32 @@ pub fn run(ctx: &Ctx) -> Outcome {
             if fw::stop_early(&mut out) {
                 break;
             }
+        }
+        let n2 = ctx.vol(30, 600);
+        let seeds2: Vec<u64> = (0..n2).map(|i| ctx.seed.wrapping_mul(15485863).wrapping_add(i)).collect();
+        for chunk in seeds2.chunks(6) {
+            let res: Vec<(u64, ReplayOut)> = rt.block_on(async {
+                let mut js = Vec::new();
+                for s in chunk.iter().copied() {
+                    js.push(tokio::spawn(async move { (s, run_two_node_replay(s).await) }));
+                }
+                let mut v = Vec::new();
+                for j in js {
+                    if let Ok(x) = j.await {
+                        v.push(x);
+                    }
+                }
+                v
+            });
+            for (s, r) in &res {
+                judge_replay(&mut out, *s, r);
+            }
+            if fw::stop_early(&mut out) {
+                break;
+            }
+        }
+        for c in ["two-nodes:non-idempotent-not-replayed", "two-nodes:idempotent-retried-elsewhere"] {
+            out.require_class(c);
         }
         for c in ["sharded:one-shard-lost-its-connection:fin", "sharded:one-shard-lost-its-connection:rst", "sharded:one-shard-lost-its-connection:garbage", "sharded:served-through-remaining-connections-before-refill"] {
             out.require_class(c);
